@@ -274,10 +274,16 @@ func C12(c *core.Ctx) {
 				}
 			}
 		}
+		// the target may be two stores written together (nodeutil.Tee): both are nodes of the edit
+		teeTarget := !withChoice && r.Chance(15)
 		runOnce := func(failAt int) (*refstore.Recorder, error) {
 			rec := &refstore.Recorder{FailAt: failAt}
 			tgt := gen.Clone(tgt0)
-			b := node.NewBrowser(dc.m, refstore.NewBody(rec, dc.kids, tgt, "tgt:"))
+			var troot node.Node = refstore.NewBody(rec, dc.kids, tgt, "tgt:")
+			if teeTarget {
+				troot = nodeutil.Tee{A: troot, B: refstore.NewBody(rec, dc.kids, gen.Clone(tgt0), "tgt2:")}
+			}
+			b := node.NewBrowser(dc.m, troot)
 			var opErr error
 			opErr = safeDo(func() error {
 				sel := b.Root()
@@ -357,7 +363,7 @@ func C12(c *core.Ctx) {
 		free, ferr := runOnce(0)
 		if ferr != nil && strings.Contains(ferr.Error(), "PANIC") {
 			c.Violation(core.Replay{Kind: "property-failure", Class: "panic-faultfree", Summary: fmt.Sprintf("%s at %q (leaf start %q): fault-free run panicked: %v", op, loc.path, leafStart, ferr),
-				Input: map[string]interface{}{"yang": dc.yang, "op": op, "entry": loc.path, "leaf_start": leafStart, "source": gen.Canon(loc.kids, src0, false), "target": gen.Canon(dc.kids, tgt0, false), "trace": decodeEvents(c12events(free))}})
+				Input: map[string]interface{}{"yang": dc.yang, "op": op, "entry": loc.path, "leaf_start": leafStart, "tee_target": teeTarget, "source": gen.Canon(loc.kids, src0, false), "target": gen.Canon(dc.kids, tgt0, false), "trace": decodeEvents(c12events(free))}})
 			continue
 		}
 		if ferr != nil {
@@ -425,6 +431,9 @@ func C12(c *core.Ctx) {
 		if leafStart != "" {
 			c.Count("scenario", op+"-leaf-start")
 		}
+		if teeTarget {
+			c.Count("scenario", op+"-tee-target")
+		}
 		c.Count("scenario", op+"-"+loc.kind)
 		c.Count("callbacks", fmt.Sprint((K/20)*20, "+"))
 		input := map[string]interface{}{"yang": dc.yang, "op": op, "entry": loc.path, "leaf_start": leafStart, "source": gen.Canon(loc.kids, src0, false), "target": gen.Canon(dc.kids, tgt0, false), "faultfree_trace": decodeEvents(c12events(free))}
@@ -446,6 +455,47 @@ func C12(c *core.Ctx) {
 			}
 			if strings.Contains(fmt.Sprint(err), "PANIC") {
 				surf = "panic: " + err.Error()
+			}
+			if teeTarget {
+				// two stores behind one node: the order in which the two are told is the Tee's business; what the property
+				// says is checked directly - whoever was told Begin (and did not refuse) is told End exactly once, and the
+				// error is the callback's
+				open := map[string]int{}
+				bad := ""
+				for i, e := range rec.Events {
+					failedHere := rec.Failed && i == k-1
+					switch e.Op {
+					case "begin":
+						if !failedHere {
+							open[e.Node]++
+						}
+					case "end":
+						open[e.Node]--
+						if open[e.Node] < 0 {
+							bad = "End without Begin on " + e.Node
+						}
+					default:
+						if strings.HasPrefix(e.Node, "tgt") && len(open) == 0 {
+							bad = "callback outside Begin/End on " + e.Node
+						}
+					}
+				}
+				for n, v := range open {
+					if v != 0 && bad == "" {
+						bad = fmt.Sprintf("%s was told Begin %d time(s) more than End", n, v)
+					}
+				}
+				if bad == "" && surf != "ok" {
+					bad = surf
+				}
+				if bad == "" && rec.Failed && err == nil {
+					bad = "the call returned nil although callback " + fmt.Sprint(k) + " failed"
+				}
+				if bad != "" {
+					c.Violation(core.Replay{Kind: "property-failure", Class: "tee-brackets-" + op, Summary: fmt.Sprintf("%s at %q into a nodeutil.Tee of two stores, callback %d/%d failing: %s; trace %s", op, loc.path, k, K, bad, short(decodeEvents(c12events(rec)))),
+						Input: map[string]interface{}{"yang": dc.yang, "op": op, "entry": loc.path, "fail_at": k, "trace": decodeEvents(c12events(rec)), "returned_error": fmt.Sprint(err)}})
+				}
+				continue
 			}
 			lines = append(lines, fmt.Sprintf("c12 run %d %s", k, top.tokens()))
 			inp := map[string]interface{}{}
